@@ -2796,8 +2796,9 @@ DFSDIputndg(int32 file_id, uint16 ref, DFSsdg *sdg)
     outNT           = sdg->filenumsubclass;
     platnumsubclass = (uint8)DFKgetPNSC(numtype, (int32)DF_MT);
 
-    /* prepare to start writing ndg   */
-    if ((GroupID = DFdisetup(10)) < 0)
+    /* prepare to start writing ndg: data, SDD, 3 string records, SDS, SDC, SDM, CAL, FV, SDT and SDLNK can all
+       be there (a float32 data set with every kind of metadata has 11 of them; 10 made DFSDputdata fail) */
+    if ((GroupID = DFdisetup(12)) < 0)
         HGOTO_ERROR(DFE_GROUPSETUP, FAIL);
 
     /* put ND and ref       */
